@@ -22,12 +22,30 @@ for fn in sorted(os.listdir(cdir)):
                 d = json.loads(line)
                 conf[d["label"]] = d
 
+def reparse_suite(label, c):
+    """the per-test lines of the suite log can be torn by log output of the tests themselves: the summary line and the
+    `failures:` list of libtest are authoritative"""
+    lp = os.path.join(cdir, "%s_suite.log" % label)
+    if not (c and isinstance(c.get("suite"), dict) and c["suite"].get("stable_failing") and os.path.exists(lp)):
+        return c
+    log = open(lp, errors="replace").read()
+    m = re.search(r"test result: (\w+)\. (\d+) passed; (\d+) failed", log)
+    if not m:
+        return c
+    failed = re.findall(r"^    (\S+)$", log.split("failures:")[-1], flags=re.M) if int(m.group(3)) else []
+    stable = [t.split("::", 1)[1] for t in json.load(open("/root/.vp/BASELINE.json"))["stable_pass"]]
+    c = dict(c)
+    c["suite"] = dict(ran=int(m.group(2)) + int(m.group(3)), stable_failing=[t for t in failed if t in stable],
+                      note="re-derived from libtest's summary line (per-test lines were torn by log output)")
+    return c
+
+
 results = []
 rows = []
 for label in sorted(META):
     prop, checks, desc, needs = META[label]
     src = os.path.join(ROOT, "work", "seedin", label)
-    c = conf.get(label)
+    c = reparse_suite(label, conf.get(label))
     confirmed = bool(c and c.get("demo_clean_rc") == 0 and c.get("demo_patched_rc") not in (0, None)
                      and isinstance(c.get("suite"), dict) and not c["suite"]["stable_failing"])
     res = {}
